@@ -10,9 +10,15 @@ of the behaviour switches (no bound on sizes).  The chain proved here is the sev
   →  `ReadInstance` hands it to `AppendEntityErrorMsg` (ghost log `reported`)  →  the file's severity is worse than a
   user message and p21read's exit rule gives 1 (`C03_reported_error_fails_file` and the three counter theorems).
 
-What is *not* proved (tied by correspondence only, see notes/C03.md): that each violation class makes the responsible
-literal/aggregate/select reader report a severity worse than USERMSG (per-literal facts are property C09's theorems),
-and the confinement clause (resynchronisation at the next `#`).
+The confinement clause: `C03_error_resync_confines` (the repaired `ReadInstance` leaves a record that was not read cleanly
+right after its `;`, whatever the failed read left behind), `C03_violation_confined_partial` (file level: every record is
+read to the outcome it has on its own; a clean record is complete with its file values whatever stands around it; inside
+a flawed record the other parameters keep their values) and the per-class `C03_*_detected` theorems (which reader flags
+what, where it leaves the stream).
+
+What is *not* proved (tied by correspondence only, see notes/C03.md): detection for the classes whose readers are not
+covered by a `ParamRd` lemma (wrong literal kind for REAL/STRING/ENUMERATION/BINARY attributes, undeclared enumeration
+item, violations inside aggregates and selects, unknown/abstract keywords, duplicate ids, externally mapped records).
 -/
 namespace StepModel.P21.C03
 open StepModel StepModel.P21 StepModel.P21.RLemmas StepModel.P21.Lemmas
@@ -658,7 +664,7 @@ theorem C03_missing_required_value_detected {F} (env : Env F) (hcfg : env.lex.cr
     (hopt : a.optional = false) (hder : a.derived = false) (hred : a.redefining = false)
     (before after : List Byte) (hb : Seps before) (ha : Seps after) :
     ParamRd env true { a := a, v := nullOf a, tok := [36], before := before, after := after } .incomplete :=
-  ⟨hred, ⟨36, [], rfl, by decide, by decide⟩, hb, fun l sk d rest hd =>
+  ⟨hred, ⟨36, [], rfl, by decide, by decide, by decide⟩, hb, fun l sk d rest hd =>
     ⟨sk, Or.inl rfl, by simpa using attr_dollar_required env a hopt hder hcfg l sk after ha d rest hd⟩⟩
 
 /-- **missing required aggregate**: `$` for a required aggregate attribute, either mode: INCOMPLETE -/
@@ -667,16 +673,16 @@ theorem C03_missing_required_aggregate_detected {F} (env : Env F) (strict : Bool
     (hopt : a.optional = false) (hder : a.derived = false) (hred : a.redefining = false)
     (before after : List Byte) (hb : Seps before) (ha : Seps after) :
     ParamRd env strict { a := a, v := nullOf a, tok := [36], before := before, after := after } .incomplete :=
-  ⟨hred, ⟨36, [], rfl, by decide, by decide⟩, hb, fun l sk d rest hd =>
+  ⟨hred, ⟨36, [], rfl, by decide, by decide, by decide⟩, hb, fun l sk d rest hd =>
     ⟨sk, Or.inl rfl, by simpa using attr_dollar_required_aggr env strict a ety hty hopt hder hcfg l sk after ha d rest hd⟩⟩
 
 /-- **a value where the attribute is derived** (anything but `*`; any text without `,` `)` — and without NUL where that
-    counts as a delimiter — that starts with neither a blank nor `/`): WARNING -/
+    counts as a delimiter — that starts with neither a blank nor `/` nor a backslash): WARNING -/
 theorem C03_value_for_derived_detected {F} (env : Env F) (strict : Bool) (a : AttrD) (hder : a.derived = true)
-    (hred : a.redefining = false) (j0 : Byte) (js : List Byte) (hj0s : isSpace j0 = false) (hj047 : j0 ≠ 47) (hj042 : j0 ≠ 42)
+    (hred : a.redefining = false) (j0 : Byte) (js : List Byte) (hj0s : isSpace j0 = false) (hj047 : j0 ≠ 47) (hj092 : j0 ≠ 92) (hj042 : j0 ≠ 42)
     (hj : ∀ b ∈ j0 :: js, delimAt env.lex attrDelims b = false) (before : List Byte) (hb : Seps before) :
     ParamRd env strict { a := a, v := .derived, tok := j0 :: js, before := before, after := [] } .warning :=
-  ⟨hred, ⟨j0, js, rfl, hj0s, hj047⟩, hb, fun l sk d rest hd =>
+  ⟨hred, ⟨j0, js, rfl, hj0s, hj047, hj092⟩, hb, fun l sk d rest hd =>
     ⟨sk, Or.inl rfl, by simpa using attr_derived_value env strict a hder j0 js hj0s hj047 hj042 hj l sk d rest hd⟩⟩
 
 /-- **wrong literal kind for an INTEGER attribute**: a text that starts like no integer — a string, an enumeration
@@ -684,11 +690,11 @@ theorem C03_value_for_derived_detected {F} (env : Env F) (strict : Bool) (a : At
     resynchronisation): `ReadInteger` assigns nothing, WARNING, the attribute stays unset -/
 theorem C03_wrong_kind_for_integer_detected {F} (env : Env F) (strict : Bool) (a : AttrD) (hty : a.ty = .one .integer)
     (hder : a.derived = false) (hred : a.redefining = false)
-    (j0 : Byte) (js : List Byte) (hj0s : isSpace j0 = false) (hj047 : j0 ≠ 47) (hj036 : j0 ≠ 36)
+    (j0 : Byte) (js : List Byte) (hj0s : isSpace j0 = false) (hj047 : j0 ≠ 47) (hj092 : j0 ≠ 92) (hj036 : j0 ≠ 36)
     (hj0d : isDigit j0 = false) (hj043 : j0 ≠ 43) (hj045 : j0 ≠ 45)
     (hj : ∀ b ∈ j0 :: js, delimAt env.lex attrDelims b = false) (before : List Byte) (hb : Seps before) :
     ParamRd env strict { a := a, v := .one (.atom .unset), tok := j0 :: js, before := before, after := [] } .warning :=
-  ⟨hred, ⟨j0, js, rfl, hj0s, hj047⟩, hb, fun l sk d rest hd =>
+  ⟨hred, ⟨j0, js, rfl, hj0s, hj047, hj092⟩, hb, fun l sk d rest hd =>
     ⟨sk, Or.inl rfl, by simpa using attr_integer_junk env strict a hty hder j0 js hj0s hj047 hj036 hj0d hj043 hj045 hj l sk d rest hd⟩⟩
 
 /-- **dangling or wrong-type reference**: `#id` where the file has no instance `id`, or one whose type does not conform
@@ -699,7 +705,7 @@ theorem C03_bad_reference_detected {F} (env : Env F) (strict : Bool) (hcfg : env
     (hbad : refLookup env.lookup tg ((digitsVal ds 0 : Nat) : Int) ≠ .found)
     (before after : List Byte) (hb : Seps before) (ha : Seps after) :
     ParamRd env strict { a := a, v := .one (.atom .unset), tok := 35 :: ds, before := before, after := after } .warning :=
-  ⟨hred, ⟨35, ds, rfl, by decide, by decide⟩, hb, fun l sk d rest hd =>
+  ⟨hred, ⟨35, ds, rfl, by decide, by decide, by decide⟩, hb, fun l sk d rest hd =>
     ⟨sk, Or.inl rfl, by simpa using attr_ref_bad env strict a tg hty hder hcfg ds hne hds hhi hbad l sk after ha d rest hd⟩⟩
 
 /-! ### the hypotheses are satisfiable: a string where an INTEGER is required -/
